@@ -534,8 +534,15 @@ def main():
                 degenerate = (any(tangent_box_line_degenerate(A, B) for A, B, _ in calls_of[name])
                               or tangent_line_family(n1, n2, reps[i][0], reps[i][1]))
                 at_end = any(min(p, 1 - p) <= SNAP for p in reps[i])
+                # a common END point of both curves whose control-point boxes only touch: decided by the exact end-point
+                # comparison of tangent boxes, no Newton iteration and no tolerance is involved (not the mechanism of the
+                # listed finding `end-point-incidence-missed`)
+                both_ends = all(min(p, 1 - p) <= SNAP for p in reps[i])
+                bx = (max(min(n1[0]), min(n2[0])), min(max(n1[0]), max(n2[0])), max(min(n1[1]), min(n2[1])), min(max(n1[1]), max(n2[1])))
+                touching = bx[0] <= bx[1] and bx[2] <= bx[3] and (bx[0] == bx[1] or bx[2] == bx[3])
                 key = ("tangent-bbox:curve-on-axis-parallel-line" if degenerate else
-                       ("end-point-incidence-missed" if at_end else "presentation-misses:" + name))
+                       ("joint-of-tangent-boxes-missed:" + name if (both_ends and touching) else
+                        ("end-point-incidence-missed" if at_end else "presentation-misses:" + name)))
                 res.failure(key, "%s pair (degrees %d,%d, %s, %s): claimed crossing (s,t)=(%.12g, %.12g) [sin^2=%.3g, residual/size=%.3g], reported by %s, "
                             "is not reported in presentation %s (%d of %d claimed points missing); %s; n1=%s n2=%s" %
                             (family, len(n1[0]) - 1, len(n2[0]) - 1, route, cfg, float(reps[i][0]), float(reps[i][1]), verdicts[i][2].get("sin2", -1),
